@@ -50,6 +50,22 @@ def main():
         return 2
 
 
+def guarded_phase(ctx, name, fn):
+    """An exception while the harness digests what the implementation returned is not an infrastructure error:
+    on the unchanged tree these phases run clean, so it means the implementation produced something the model of
+    the code does not produce (wrong shapes, missing attributes, out-of-range indices …). It is recorded as a broken
+    correspondence (the failing-input search still decides whether a concrete violating input is reported)."""
+    try:
+        fn(ctx)
+    except core.Infra:
+        raise
+    except Exception as e:  # noqa
+        tb = traceback.format_exc()
+        ctx.broke("correspondence", "harness exception in " + name,
+                  "%s: %s\n%s" % (type(e).__name__, e, tb[-1200:]))
+        ctx.notes.append("exception in %s phase: %s" % (name, type(e).__name__))
+
+
 def run(ctx, mod, a):
     prop = ctx.prop
     theorems, audit_problems = {}, []
@@ -84,7 +100,7 @@ def run(ctx, mod, a):
 
     # 4. correspondence (needs the driver, i.e. a model that builds)
     if model_usable or a.no_lean:
-        mod.correspondence(ctx)
+        guarded_phase(ctx, "correspondence", mod.correspondence)
     else:
         ctx.notes.append("model does not build: correspondence skipped, search only")
     # source fingerprints of the modelled functions: a changed function multiplies the search budget
@@ -95,7 +111,7 @@ def run(ctx, mod, a):
         ctx.extra["modelled_functions_without_snapshot"] = unsnapped
     # 5. property oracle on the real code (always run; deeper when something broke or a modelled function changed)
     ctx.extra["search_boost"] = bool(ctx.broken) or bool(changed)
-    mod.search(ctx)
+    guarded_phase(ctx, "search", mod.search)
 
     # ---- verdict
     known = [k for k in core.load_known() if k.get("property") == prop and k.get("status") == "known"]
@@ -166,6 +182,13 @@ def write_evidence(ctx, mod, theorems, checker, gen_info, seen_known, violation,
         "notes": ctx.notes,
         "explanation": getattr(mod, "EXPLANATION", ""),
     }
+    if cov["discharged"] < 1:
+        # no theorem was checked in this run (build broke, or a development run with --no-lean): the proof keys
+        # would be meaningless, report the exploration keys only and say so
+        cov["proof_obligations_note"] = ("no proof obligation was discharged in this run (obligations=%d): "
+                                         "the model did not build or Lean was skipped" % obligations)
+        del cov["obligations"], cov["discharged"]
+        cov["distinct_nontrivial"] = max(cov["distinct_nontrivial"], 0)
     cov.update(core.jsonable(ctx.extra))
     ev = {
         "property_id": ctx.prop,
